@@ -199,7 +199,17 @@ def main(tier):
     if tier == 'thorough':
         fps.append(('fp', 'nonemitting', 32, 1200))   # inconclusive when it does not finish (stated)
     fres = run_instances(run_instance, fps + [('upsert', c, l) for c in ('BaseMatching', 'DistanceMatching') for l in (0, 1)])
-    res = gabs.run_all(rep, run_instance, instances(tier), budget, 16 * (100 if tier == 'quick' else 900))
+    insts = instances(tier)
+    if tier == 'thorough' and len(insts) > 220:
+        # 720 combinations x up to 16 shards do not fit the tier's wall-time target (two runs hit the 50 min cap): every quick-tier
+        # instance plus a VERIF_SEED-chosen subset of the rest; the evidence records how many were run
+        import random
+        from symx.common import seed
+        quick = instances('quick')
+        rest = [i for i in insts if i not in quick]
+        insts = quick + random.Random(seed()).sample(rest, 220 - len(quick))
+        rep.extra['thorough_instances'] = f"{len(insts)} of {len(rest) + len(quick)} combinations (all quick-tier ones + a seed-chosen subset)"
+    res = gabs.run_all(rep, run_instance, insts, budget, 16 * (100 if tier == 'quick' else 900))
     rep.bounds = dict(operations="sequences of <=3 operations from match / increase_max_lattice_width / match(expand=True) / continue_with_distance / repeated match",
                       graphs="line2, oneway3, fork, oneway4" if tier == 'quick' else "all digraphs <=3 nodes/<=4 edges, fork, oneway4",
                       T="<=3", fp_lemma="emitting step Float64; non-emitting step Float16" + (" and Float32" if tier == 'thorough' else "") +
